@@ -241,12 +241,13 @@ for tname in ("T_CNAME", "T_A", "T_TXT", "T_NULL", "T_PRIVATE", "OTHER"):
       what="write_dns, query type %s, every payload of 0..4096 bytes and codec letter: CNAME/A = one write_dns_nameenc name; TXT = letter t/s/u/v/r + the complete text of the codec named by the letter (raw: payload copied as is); NULL/PRIVATE/other = payload as is; one message built for the query being answered and sent once to the asker" % tname)
 
 # ---- client.c handshake parsers (C06, C13 boundary, C19 call sites) ---------------------------------------------------
-HS = dict(CLI, unwind=20, unwindset=["tun_setip.0:67", "tun_setip.1:67"], timeout=900, cost=80, min_obl=10)
+HS = dict(CLI, unwind=70, unwindset=["tun_setip.0:67", "tun_setip.1:67"], timeout=900, cost=80, min_obl=10)
 for ent, fns, props, what in (
     ("h_hs_login", ["handshake_login"], {"C06": "all", "C13": "all", "C19": "all"}, "handshake_login with an arbitrary reply of up to 4096 bytes: the reply is a NUL-terminated string inside its buffer before it is parsed, the two address fields handed to tun_setip are NUL-terminated within 65 bytes, the response is computed from the password and exactly the challenge received, success only if both configuration steps succeeded"),
     ("h_hs_version", ["handshake_version"], {"C06": "all"}, "handshake_version with an arbitrary reply: every index read is below the reply length, no undefined shift"),
     ("h_hs_switch", ["handshake_switch_codec", "handshake_switch_downenc", "handshake_try_lazy", "handshake_lazyoff"], {"C06": "all"}, "codec / downstream codec / lazy-mode switches with an arbitrary reply of up to 4096 bytes: the terminator written behind the reply stays inside the buffer"),
     ("h_hs_setfrag", ["handshake_set_fragsize", "fragsize_check"], {"C06": "all"}, "handshake_set_fragsize and fragsize_check with an arbitrary reply: reads stay below the reply length"),
+    ("h_hs_tests", ["handshake_upenctest", "handshake_downenctest", "handshake_qtypetest"], {"C06": "all"}, "codec and query-type tests with an arbitrary reply of up to 4096 bytes and every test pattern of 1..59 characters: the comparison loops read only below the reply length"),
     ("h_hs_raw", ["handshake_raw_udp", "send_raw_udp_login", "send_raw"], {"C06": "all", "C19": "all"}, "handshake_raw_udp: address replies of exactly 5 / 17 bytes copied into the socket address, raw login carries the response for challenge + 1, raw mode only after comparing at least 20 received bytes with the response for challenge - 1")):
     G(name="cli_" + ent[2:], entry=ent, defs=["STUB_HANDSHAKE=1"], enforce=fns, props=props, what=what, **HS)
 G(name="cli_tunnel_tun", entry="h_tunnel_tun", defs=["STUB_TUNNEL=1"], enforce=["tunnel_tun", "send_raw_data", "send_raw"], props={"C01": "all", "C06": "safety"}, min_obl=20, cost=60, **CLI,
